@@ -21,13 +21,13 @@
      C05 state.  [PUnspec] results are outside the claim.
 
    compile_correct is PROVED FOR SIX NESTED FRAGMENTS of the language (second half of this file:
-   C01_compile_correct_f1 .. _f5, C01_compile_correct_f6_partial, C01_fragments_well_scoped), against the merged models
+   C01_compile_correct_f1 .. _f5, C01_compile_correct_f6r, C01_fragments_well_scoped), against the merged models
    Compiler.compile, C15Link.to_vm, Vm.run and RefSem.eval_program: programs that consist of `main`
    alone, over integer / nil globals and local variables of main, with arithmetic, comparison and boolean operators, global
-   assignment, IfTrue / IfFalse / IfElse, Composite, While and Repeat without a loop variable, nested at will
-   (the while-language); the resource side is explicit (hypotheses on expression depth and budget).  For
-   everything else (reals, Repeat with a loop variable or a declaring body, ForEach, calls, tables, closures,
-   natives) the claim is
+   assignment, IfTrue / IfFalse / IfElse, Composite, While and Repeat (with or without the loop variable), nested
+   at will (the while-language with for-loops); the resource side is explicit (hypotheses on expression depth
+   and budget).  For everything else (reals, a Repeat body that declares locals, ForEach, calls, tables,
+   closures, natives) the claim is
    carried by the differential check C01Check (the real compiler + VM against eval_program). *)
 From Coq Require Import List NArith ZArith Bool Arith String Ascii.
 Import ListNotations.
@@ -685,15 +685,11 @@ Proof. vm_compute. repeat split; reflexivity. Qed.
    compiler keeps the count and the round counter in two hidden locals above the locals of main for
    the time of the loop (two Pops behind it); RefSem's repeat clause is the other side.  A count that
    is not an integer (nil) or not positive gives zero rounds on both sides.
-   PARTIAL with respect to the planned fragment F6 (hence the name): NOT covered are the loop
-   variable (`Repeat (Some i) n body`) and a body that is a scope with declarations of its own, and
-   ForEach.  The gap: RefSem allocates a fresh cell for the loop variable (and for every local of the
-   body) in every round and never frees cells, the VM reuses the same slots; the invariant of F5
-   "cell i <-> slot i" (C01SimRef5.st5 / C01SimRef6.st6) has to become a map from the visible locals
-   to cells before those programs can be simulated.  The differential check C01Check covers them. *)
+   The loop variable is the next fragment (F6 below).  Cells and slots still correspond one to one
+   here (C01SimRef6.st6 / stK). *)
 From Cao Require C01SimDefs6 C01SimF6.
 
-Theorem C01_compile_correct_f6_partial :
+Theorem C01_compile_correct_f6r :
   forall (F : Vm.fops) (bld : Vm.build) (M : module) (B : Compiler.compiled) (fuel : nat) (host : list str) (o : obs),
     C01SimDefs6.in_f6 M = true ->
     C01SimDefs6.depth_ok6 (C01SimDefs.main_cards M) = true ->
@@ -707,7 +703,7 @@ Theorem C01_compile_correct_f6_partial :
       forall n, C01SimDefs.no_collision (C01SimDefs6.main_gnames6 [] (C01SimDefs.main_cards M)) n ->
         option_map C01SimDefs.vm_tree (Vm.read_var_by_name (C15Link.to_vm B) (snd r) n) = assoc n (ob_globals o).
 Proof. exact C01SimF6.compile_correct_f6. Qed.
-Print Assumptions C01_compile_correct_f6_partial.
+Print Assumptions C01_compile_correct_f6r.
 
 (* an instance: a count computed from a local that the body then changes (the count does not follow),
    a Repeat inside a Repeat with counts 3, 2, 1, 0, -1, a nil count, a Repeat inside a While, and a
@@ -735,7 +731,7 @@ Definition f6_example : module :=
      CRepeat None (CScalarInt 2)
        (CBin BIfTrue (CReadVar (s "rounds"))
           (CComposite (s "") [CSetGlobalVar (s "rounds") (CScalarInt 0); CSetGlobalVar (s "z") (CReadVar (s "nope"))]))])].
-Example C01_compile_correct_f6_partial_instance :
+Example C01_compile_correct_f6r_instance :
   match Compiler.compile f6_example CompilerProofs.default_options, eval_program 3000 f6_example [] with
   | Compiler.COk B, PObs o =>
       C01SimDefs6.in_f6 f6_example = true /\ C01SimDefs5.in_f5 f6_example = false /\
@@ -765,7 +761,7 @@ Definition f6_example_ok : module :=
            CSetVar (s "n") (CBin BSub (CReadVar (s "n")) (CScalarInt 1))]);
      CSetGlobalVar (s "fact") (CReadVar (s "f"));
      CSetGlobalVar (s "n") (CReadVar (s "n"))])].
-Example C01_compile_correct_f6_partial_instance_ok :
+Example C01_compile_correct_f6r_instance_ok :
   match Compiler.compile f6_example_ok CompilerProofs.default_options, eval_program 300 f6_example_ok [] with
   | Compiler.COk B, PObs o =>
       C01SimDefs6.in_f6 f6_example_ok = true /\
@@ -781,7 +777,105 @@ Example C01_compile_correct_f6_partial_instance_ok :
   end.
 Proof. vm_compute. repeat split; reflexivity. Qed.
 
-(* the six fragments are nested, and every program of them is in the class property C01 quantifies
+(* ==== fragment F6: F5 plus  Repeat i n body  with or without the loop variable ====
+   (C01SimDefs7.in_f7; the files of this fragment carry the number 7, F6r above being their first
+   half.)  The count n is any expression of the fragment, evaluated once; i is None or Some x with x a
+   plain name; the body is a statement of the fragment (assignments, If*, While, Composite, Repeat,
+   nested at will).  In every round the compiler opens a scope, declares x in the slot above the two
+   hidden locals, initialises it from the round counter, and pops it at the end of the round; the
+   body may assign x (that does not change the number of rounds) and x may shadow a local or a
+   global.  RefSem allocates a fresh cell for x in every round and never frees one, so the proof
+   relates the visible locals to cells by a map (C01SimRef7.inv: the i-th visible entry lives in cell
+   cs[i], the cells are distinct, the environment resolves a name to the cell of its most recent entry)
+   instead of "cell i <-> slot i".
+   PARTIAL with respect to the planned fragment F6 (hence the name): NOT covered are a body that
+   declares locals of its own (a SetVar of a new name directly in the body: the compiler pops those at
+   the end of each round as well) and ForEach.  The gap is on the compiler side of the proof only: the
+   statement induction of C01SimComp7 / C01SimF7 keeps the local context fixed through a statement
+   (emits6 Ld d Ld d, lnames R' = lnames R); the reference side (inv) already allows declarations in
+   inner scopes.  The differential check C01Check covers those programs. *)
+From Cao Require C01SimDefs7 C01SimF7.
+
+Theorem C01_compile_correct_f6_partial :
+  forall (F : Vm.fops) (bld : Vm.build) (M : module) (B : Compiler.compiled) (fuel : nat) (host : list str) (o : obs),
+    C01SimDefs7.in_f7 M = true ->
+    C01SimDefs7.depth_ok7 (C01SimDefs.main_cards M) = true ->
+    Compiler.compile M CompilerProofs.default_options = Compiler.COk B ->
+    (N.of_nat (List.length (Compiler.p_ids B)) < Bits.two32)%N ->
+    (N.of_nat (List.length (Compiler.p_bytecode B)) < 2147483648)%N ->
+    eval_program fuel M host = PObs o ->
+    exists N0 : nat, forall budget : nat, N0 <= budget ->
+      let r := Vm.run F bld budget (C15Link.to_vm B) Vm.fresh_state in
+      C01SimDefs.vm_kind (fst r) = Some (ob_kind o) /\
+      forall n, C01SimDefs.no_collision (C01SimDefs7.main_gnames7 [] (C01SimDefs.main_cards M)) n ->
+        option_map C01SimDefs.vm_tree (Vm.read_var_by_name (C15Link.to_vm B) (snd r) n) = assoc n (ob_globals o).
+Proof. exact C01SimF7.compile_correct_f7. Qed.
+Print Assumptions C01_compile_correct_f6_partial.
+
+(* an instance: simple_for_loop of the crate's tests with a loop variable that shadows a local of
+   main, a triangular double loop whose inner count is the outer loop variable, an assignment to the
+   loop variable, and a read of the loop variable behind its loop (VarNotFound) *)
+Definition f7_example : module :=
+  prog [("main", fn []
+    [CSetVar (s "i") (CScalarInt 100);
+     CSetVar (s "sum") (CScalarInt 0);
+     CRepeat (Some (s "i")) (CScalarInt 5)                                  (* shadows the local i of main: 0+1+2+3+4 *)
+       (CSetVar (s "sum") (CBin BAdd (CReadVar (s "sum")) (CReadVar (s "i"))));
+     CSetGlobalVar (s "result") (CReadVar (s "sum"));
+     CSetGlobalVar (s "i") (CReadVar (s "i"));                             (* main's i again: 100 *)
+     CSetVar (s "cnt") (CScalarInt 0);
+     CRepeat (Some (s "a")) (CScalarInt 4)
+       (CRepeat (Some (s "b")) (CReadVar (s "a"))                           (* pairs b < a < 4 : 6 *)
+          (CComposite (s "")
+             [CSetVar (s "cnt") (CBin BAdd (CReadVar (s "cnt")) (CScalarInt 1));
+              CSetGlobalVar (s "last") (CBin BAdd (CBin BMul (CReadVar (s "a")) (CScalarInt 10)) (CReadVar (s "b")))]));
+     CSetGlobalVar (s "cnt") (CReadVar (s "cnt"));
+     CRepeat (Some (s "j")) (CScalarInt 3)
+       (CComposite (s "")
+          [CSetVar (s "j") (CBin BMul (CReadVar (s "j")) (CScalarInt 7));   (* assigning the loop variable does not change the count *)
+           CSetGlobalVar (s "j7") (CReadVar (s "j"))]);
+     CSetGlobalVar (s "jj") (CReadVar (s "j"));                            (* j is gone: VarNotFound *)
+     CSetGlobalVar (s "never") (CScalarInt 1)])].
+Example C01_compile_correct_f6_partial_instance :
+  match Compiler.compile f7_example CompilerProofs.default_options, eval_program 3000 f7_example [] with
+  | Compiler.COk B, PObs o =>
+      C01SimDefs7.in_f7 f7_example = true /\ C01SimDefs6.in_f6 f7_example = false /\
+      C01SimDefs7.depth_ok7 (C01SimDefs.main_cards f7_example) = true /\
+      (N.of_nat (List.length (Compiler.p_ids B)) <? Bits.two32)%N = true /\
+      (N.of_nat (List.length (Compiler.p_bytecode B)) <? 2147483648)%N = true /\
+      (ob_kind o, ob_globals o) =
+        (KErr EVarNotFound, [(s "result", TrInt 10); (s "i", TrInt 100); (s "last", TrInt 32); (s "cnt", TrInt 6); (s "j7", TrInt 14)]) /\
+      let r := Vm.run no_floats Vm.Debug 3000 (C15Link.to_vm B) Vm.fresh_state in
+      C01SimDefs.vm_kind (fst r) = Some (ob_kind o) /\
+      map (fun n => option_map C01SimDefs.vm_tree (Vm.read_var_by_name (C15Link.to_vm B) (snd r) n))
+          [s "result"; s "i"; s "cnt"; s "last"; s "j7"; s "jj"; s "never"; s "sum"; s "a"]
+      = map (fun n => assoc n (ob_globals o)) [s "result"; s "i"; s "cnt"; s "last"; s "j7"; s "jj"; s "never"; s "sum"; s "a"]
+  | _, _ => False
+  end.
+Proof. vm_compute. repeat split; reflexivity. Qed.
+
+(* ... and a run that reaches the end of main (everything popped before Exit): simple_for_loop itself *)
+Definition f7_example_ok : module :=
+  prog [("main", fn []
+    [CSetGlobalVar (s "result") (CScalarInt 0);
+     CRepeat (Some (s "i")) (CScalarInt 5)
+       (CSetGlobalVar (s "result") (CBin BAdd (CReadVar (s "result")) (CReadVar (s "i"))))])].
+Example C01_compile_correct_f6_partial_instance_ok :
+  match Compiler.compile f7_example_ok CompilerProofs.default_options, eval_program 300 f7_example_ok [] with
+  | Compiler.COk B, PObs o =>
+      C01SimDefs7.in_f7 f7_example_ok = true /\
+      C01SimDefs7.depth_ok7 (C01SimDefs.main_cards f7_example_ok) = true /\
+      (ob_kind o, ob_globals o) = (KOk, [(s "result", TrInt 10)]) /\
+      let r := Vm.run no_floats Vm.Release 200 (C15Link.to_vm B) Vm.fresh_state in
+      C01SimDefs.vm_kind (fst r) = Some (ob_kind o) /\
+      Stacks.vcount (Vm.st_stack (snd r)) = 0 /\
+      map (fun n => option_map C01SimDefs.vm_tree (Vm.read_var_by_name (C15Link.to_vm B) (snd r) n)) [s "result"; s "i"]
+      = map (fun n => assoc n (ob_globals o)) [s "result"; s "i"]
+  | _, _ => False
+  end.
+Proof. vm_compute. repeat split; reflexivity. Qed.
+
+(* the seven fragments are nested, and every program of them is in the class property C01 quantifies
    over: the theorems above are instances of compile_correct, not statements about other programs *)
 From Cao Require C01SimScope.
 Theorem C01_fragments_well_scoped :
@@ -791,6 +885,7 @@ Theorem C01_fragments_well_scoped :
     (C01SimDefs3.in_f3 M = true -> C01SimDefs4.in_f4 M = true) /\
     (C01SimDefs4.in_f4 M = true -> C01SimDefs5.in_f5 M = true) /\
     (C01SimDefs5.in_f5 M = true -> C01SimDefs6.in_f6 M = true) /\
-    (C01SimDefs6.in_f6 M = true -> well_scoped M = true).
+    (C01SimDefs6.in_f6 M = true -> C01SimDefs7.in_f7 M = true) /\
+    (C01SimDefs7.in_f7 M = true -> well_scoped M = true).
 Proof. exact C01SimScope.fragments_well_scoped. Qed.
 Print Assumptions C01_fragments_well_scoped.
